@@ -1,8 +1,8 @@
 /- C04 interleaving layer: kernel evaluation of the table check for the 24 configurations with
-patched (WriteBlock takes the flock, fixes/F4.patch) = false, Serialize = false, BlobTrashLifetime == 0 = false. -/
+Serialize = false, BlobTrashLifetime == 0 = false. -/
 import ArvVerif.Proofs.C04_RaceTable
 namespace ArvVerif.C04.Race
 
-theorem checkGroup0 : ((cfgGroup false false false).all fun c => checkCfg c (tableOf c)) = true := by decide +kernel
+theorem checkGroup0 : ((cfgGroup false false).all fun c => checkCfg c (tableOf c)) = true := by decide +kernel
 
 end ArvVerif.C04.Race
